@@ -403,6 +403,12 @@ def fast_path_guard(an, fn, node, data_expr, avoid=None):
             continue        # the re-definitions are judged on their own; here only the parameter's own arrival counts
         if kind == "expr" and isinstance(payload, ast.Name) and payload.id in good:
             continue
+        if kind == "expr" and isinstance(payload, ast.Call) and isinstance(payload.func, ast.Attribute) and payload.func.attr in ("items", "values", "keys", "copy") \
+                and isinstance(payload.func.value, ast.Name) and payload.func.value.id in good and not payload.args:
+            continue        # a view / copy of the guarded proxy
+        if kind == "expr" and isinstance(payload, ast.Call) and isinstance(payload.func, ast.Name) and payload.func.id in ("list", "tuple", "iter") \
+                and len(payload.args) == 1 and isinstance(payload.args[0], ast.Name) and payload.args[0].id in good:
+            continue
         if kind == "expr" and isinstance(payload, (ast.List, ast.Tuple, ast.Dict)) and not getattr(payload, "elts", None) \
                 and not getattr(payload, "keys", None):
             continue    # empty literal alternative of `x or []`: carries no data
@@ -495,6 +501,30 @@ def arg_validated(an, fn, expr, node, form, depth=0, use_node=None):
                 ok, why = arg_validated(an, fn, d.value, d.node, form, depth + 1, use_node)
             elif d.kind == "unpack" and index is not None and d.index == index and _proxy_validate_call(an, fn, d.value):
                 ok, why = True, "component %d of self._validate(...)" % index
+            elif d.kind == "for" and isinstance(d.value, ast.Name) and d.node is not None:
+                # the loop runs over a local that was bound earlier (`pairs = other.items()` on the fast path, a list of
+                # validated pairs otherwise): every definition of that local has to qualify where it is made
+                ok, why = True, ""
+                it_defs = rd.reaching(d.node, d.value.id)
+                if not it_defs:
+                    ok, why = False, "%s has no local definition" % d.value.id
+                for itd in it_defs:
+                    if itd.kind == "assign" and itd.value is not None:
+                        v_ = itd.value
+                        if isinstance(v_, (ast.ListComp, ast.GeneratorExp)) and _proxy_validate_call(an, fn, v_.elt):
+                            o2, w2 = True, "pairs produced by self._validate(...)"
+                        elif isinstance(v_, (ast.List, ast.Tuple)) and not v_.elts:
+                            o2, w2 = True, "empty literal"
+                        else:
+                            o2, w2 = fast_path_guard(an, fn, itd.node, v_)
+                    elif itd.kind == "param":
+                        o2, w2 = fast_path_guard(an, fn, use_node, d.value)
+                    else:
+                        o2, w2 = False, "%s comes from %s" % (d.value.id, itd.kind)
+                    if not o2:
+                        ok, why = False, w2
+                        break
+                    why = w2
             elif d.kind in ("param", "for", "with"):
                 ok, why = guarded(expr)
                 if not ok and d.kind == "param":
